@@ -150,3 +150,20 @@ Theorem prox_newton_solve_returns_consistent_fit :
   Cons n X (pn_w (g_s out)) c (pn_Xw (g_s out)) /\ length (pn_w (g_s out)) = length X.
 Proof. exact prox_newton_returns_consistent_fit. Qed.
 Print Assumptions prox_newton_solve_returns_consistent_fit.
+
+(* GroupBCD, closed over the regenerated block epoch: the skeleton of GroupBCD._solve whose epoch kernel is the translated
+   `_bcd_epoch` (no intercept) returns Xw = X w + c from any consistent start; the only hypothesis left concerns the accelerator *)
+Require Import SK.Skel.AndersonCD SK.Skel.GroupBCD SK.Skel.GroupBCDGen.
+Theorem group_bcd_solve_returns_consistent_fit :
+  forall {A : Type} (prox_1group : list R -> R -> Z -> res (list R)) (gg : list (list R) -> list R -> list R -> list R -> Z -> res (list R))
+    (n : nat) (X : list (list R)) (c y : list R) (grp_ptr grp_indices : list Z) (cfg : @config R) (K : @kernels R A) (ng : nat),
+  wf_X n X -> NoDup grp_indices -> Forall (fun j => (0 <= j)%Z) grp_indices ->
+  n_features cfg = length X -> fit_intercept cfg = false ->
+  (forall w Xw lip ws, k_epoch K w Xw lip ws = @_bcd_epoch R _ grp_ptr grp_indices gg prox_1group X y w Xw lip ws) ->
+  (forall a w Xw w_acc Xw_acc a', Cons n X w c Xw /\ length w = length X -> k_acc_step K a w Xw = Ok (w_acc, Xw_acc, true, a') ->
+     Cons n X w_acc c Xw_acc /\ length w_acc = length X) ->
+  forall w0 Xw0 out, length w0 = length X -> Cons n X w0 c Xw0 ->
+  bsolve cfg K ng (Some w0) (Some Xw0) = Ok out ->
+  Cons n X (b_w (g_s out)) c (b_Xw (g_s out)) /\ length (b_w (g_s out)) = length X.
+Proof. intros A. exact (@group_bcd_returns_consistent_fit A). Qed.
+Print Assumptions group_bcd_solve_returns_consistent_fit.
